@@ -579,6 +579,28 @@ def oracle_enc(sl, case):
     if rows not in want_rows:
         return 'roll has %d frames, total_time*fps+1 = %s' % (rows, float(x + 1))
     plain = (kw['min_frame_occupancy_for_label'] == 0 and kw['onset_overlap'] and not kw['add_blank_frame_before_onset'])
+    if (kw['min_frame_occupancy_for_label'] == 0 and kw['onset_overlap'] and kw['add_blank_frame_before_onset']):
+        # statement of enc_active_cell_blank, re-evaluated: a cell is 1 iff a note paints it and no note later in
+        # start order has it as the frame before its first frame.  Judged when no frame position is ambiguous.
+        spans = []
+        for p, v, s, e in sorted(inrange, key=lambda n: n[2]):
+            so, eo = frame_options(F(s) * fps, True), frame_options(F(e) * fps, False)
+            if len(so) != 1 or len(eo) != 1:
+                return None
+            a, b = next(iter(so)), next(iter(eo))
+            spans.append((p - minp, a, max(b, a + 1)))
+        exp = np.zeros((rows, cols), dtype=bool)
+        for i, (c, a, b) in enumerate(spans):
+            for f in range(max(a, 0), min(b, rows)):
+                if not any(c2 == c and a2 - 1 == f for c2, a2, _ in spans[i + 1:]):
+                    exp[f, c] = True
+        act = pr.active > 0
+        if (exp != act).any():
+            f, c = np.argwhere(exp != act)[0]
+            return ('blank frames: frame %d pitch %d is %s, but %s' % (
+                f, c + minp, 'active' if act[f, c] else 'silent',
+                'a later note starts right after it' if act[f, c] else 'a note paints it and no later note blanks it'))
+        return None
     if not plain:
         return None
     # active frames: union over in-range notes of [floor(s*fps), max(ceil(e*fps), start+1))
@@ -690,9 +712,12 @@ def oracle_dec(sl, case):
     n = len(case['frames'])
     mind = F(kw['min_duration_ms'])
     # "drops only notes shorter than min_duration_ms": judged exactly whenever the frame length 1/fps is a binary
-    # fraction (8/16/32 fps: every float operation of the duration test is exact); at the other rates a run whose
-    # exact length is within 1e-12 (relative) of the threshold is left to float rounding
-    tol = F(0) if _pow2(fps) else F(1, 10**12)
+    # fraction (8/16/32 fps: every float operation of the duration test is exact); at the other rates the run must be
+    # kept / dropped outside the margins PROVED for every IEEE-like rounding (Props/C18B.lean: keepR_float_kept,
+    # keepR_float_dropped; u = 2^-53) — e.g. the 20 ms run [1,3) at 100 fps against min_duration_ms = 20 evaluates to
+    # 19.999999999999996 and is dropped, which is inside the margin
+    exact_rate = _pow2(fps)
+    u = F(1, 2**53)
     segs = spec_segments(case)
     got = {}
     for nt in ns.notes:
@@ -707,9 +732,14 @@ def oracle_dec(sl, case):
     for c, s, e, onf in segs:
         dur = F(e - s) / fps * 1000
         present = (c, s, e) in got
-        if dur >= mind * (1 + tol) + tol and not present:
+        if exact_rate:
+            keep_if, drop_if = dur >= mind, dur < mind
+        else:
+            keep_if = mind <= (1 - u) ** 3 * (F(e - s) - F(e + s) * u) * 1000 / fps
+            drop_if = (1 + u) ** 3 * (F(e - s) + F(e + s) * u) * 1000 / fps < mind
+        if keep_if and not present:
             return 'run pitch %d frames [%d,%d) (%s ms) has no note, min_duration_ms = %r' % (c, s, e, float(dur), kw['min_duration_ms'])
-        if dur < mind * (1 - tol) - tol and present:
+        if drop_if and present:
             return 'run pitch %d frames [%d,%d) (%s ms) shorter than min_duration_ms = %r kept' % (c, s, e, float(dur), kw['min_duration_ms'])
         if present:
             nt = got.pop((c, s, e))
@@ -734,8 +764,26 @@ def oracle_dec(sl, case):
     return None
 
 
+def _unscaled_ok(val, scale, bias):
+    """the MIDI velocities `_unscale_velocity` may give for the exact value `val`: int(clip(val,0,1)*scale+bias),
+    with both neighbours allowed when the exact result is within 1e-5 of an integer (float32 / float64 products)"""
+    val = min(max(val, F(0)), F(1))
+    x = val * F(scale) + F(bias)
+    ok = {math.floor(x)} if x >= 0 else {math.ceil(x)}
+    kk = math.floor(x + F(1, 2))
+    if abs(x - kk) <= F(1, 10**5):
+        ok |= {kk, kk - 1}
+    return ok
+
+
 def oracle_ons(sl, case):
+    """onset-only decoding (statement of Props/C18B.lean onsets_decode, re-evaluated with Fractions): one note per
+    cell holding a 1, row-major order, start = frame/fps, length = note_duration_seconds, pitch = index +
+    min_midi_pitch, velocity = _unscale_velocity(value) where the value is velocity_values[f, p] or — without
+    velocity values — the `velocity` argument itself; total_time = frames/fps + note_duration_seconds."""
     kw = dec_kw(case)
+    if not case['fps'] or case['fps'] < 0:
+        return None
     try:
         ns = ons_call(sl, case)
     except Exception as e:  # pylint: disable=broad-except
@@ -744,12 +792,23 @@ def oracle_ons(sl, case):
     want = [(c, f) for f, row in enumerate(case['frames']) for c, b in enumerate(row) if b]
     if len(want) != len(ns.notes):
         return '%d notes for %d onsets' % (len(ns.notes), len(want))
+    v = dec_arrays(case)[3] if case.get('vels') is not None else None
     for (c, f), nt in zip(want, ns.notes):
         xs = F(nt.start_time) * fps
         if nt.pitch != c + kw['min_midi_pitch'] or abs(xs - f) > NOISE * max(1, f):
             return 'onset (%d,%d) gave note pitch %d start %r' % (f, c, nt.pitch, nt.start_time)
         if abs(F(nt.end_time) - F(nt.start_time) - F(case['dur'])) > NOISE * max(1, F(nt.end_time)):
             return 'note duration is not note_duration_seconds'
+        val = F(float(v[f, c])) if v is not None else F(kw['velocity'])
+        if nt.velocity not in _unscaled_ok(val, kw['velocity_scale'], kw['velocity_bias']):
+            return 'onset (%d,%d): velocity %d for value %r (scale %r bias %r)' % (
+                f, c, nt.velocity, float(val), kw['velocity_scale'], kw['velocity_bias'])
+        if nt.end_time > ns.total_time:
+            return 'note ends after total_time'
+    n = len(case['frames'])
+    xt = F(ns.total_time) - F(case['dur'])
+    if abs(xt * fps - n) > NOISE * max(1, n):
+        return 'total_time %r is not frames/fps + note_duration_seconds' % ns.total_time
     return None
 
 
@@ -829,7 +888,8 @@ IMPL = {'enc': enc_impl, 'dec': dec_impl, 'ons': ons_impl}
 # ----------------------------------------------------------------------------- run
 P, E, FL, DC, EC = ('NoteSeqVerif.Props.C18', 'NoteSeqVerif.Proofs.C18Enc', 'NoteSeqVerif.Proofs.C18Float',
                      'NoteSeqVerif.Proofs.C18Dec', 'NoteSeqVerif.Proofs.C18EncC')
-MODULES = [FL, E, EC, DC, P]
+ED, ON, PB = 'NoteSeqVerif.Proofs.C18EncD', 'NoteSeqVerif.Proofs.C18Ons', 'NoteSeqVerif.Props.C18B'
+MODULES = [FL, E, EC, DC, P, ED, ON, PB]
 THEOREMS = [
     # float layer: no drift for every rounding operator with the IEEE properties, every fps > 0, k < 2^31
     (FL, 'NSV.C18.rounding_id'), (FL, 'NSV.C18.grid_near'), (FL, 'NSV.C18.timeToFrames_grid'),
@@ -851,6 +911,25 @@ THEOREMS = [
     # the two conversions are mutually inverse on the grid: any rounding with grid exactness, every Rounding R, exact
     (P, 'NSV.C18.roll_roundtrip_of_grid'), (P, 'NSV.C18.roll_roundtrip_float'), (P, 'NSV.C18.roll_roundtrip'),
     (P, 'NSV.C18.roll_roundtrip_notes_of_grid'), (P, 'NSV.C18.roll_roundtrip_notes_float'),
+    # onset-only decoding: closed form over the onset matrix (order, times, pitch, velocity, total_time), one note per
+    # onset cell, no exception on rectangular input, the closing assertion cannot fire
+    (ON, 'NSV.C18.onsetRow_eq'), (ON, 'NSV.C18.onsetRows_eq'),
+    (PB, 'NSV.C18.onsets_decode'), (PB, 'NSV.C18.onsets_decode_defined'), (PB, 'NSV.C18.onsets_decode_cells'),
+    (PB, 'NSV.C18.onsets_decode_total_ge'),
+    # active roll for either setting of add_blank_frame_before_onset: per-note step, the fold, "painted and not blanked
+    # later", closed form under separation; weights roll as last writer wins
+    (ED, 'NSV.C18.paintNote_active_cell'), (ED, 'NSV.C18.Blanks_not_covers'), (ED, 'NSV.C18.foldl_blank_cover'),
+    (PB, 'NSV.C18.enc_active_fold'), (PB, 'NSV.C18.enc_active_cell_blank'), (PB, 'NSV.C18.enc_active_cell_sep'),
+    (PB, 'NSV.C18.enc_active_cell_of_noblank'), (PB, 'NSV.C18.enc_weights_cell_last'),
+    # both round trips with add_blank_frame_before_onset arbitrary
+    (PB, 'NSV.C18.roll_roundtrip_of_grid_anyblank'), (PB, 'NSV.C18.roll_roundtrip_float_anyblank'),
+    (PB, 'NSV.C18.roll_roundtrip_notes_of_grid_anyblank'), (PB, 'NSV.C18.roll_roundtrip_notes_float_anyblank'),
+    # onset_velocities = velocities * onsets; (0,1] range of both velocity rolls
+    (PB, 'NSV.C18.enc_onset_velocity_cell'), (PB, 'NSV.C18.active_velocity_range'), (PB, 'NSV.C18.onset_velocity_range'),
+    # exactly which runs the decoder drops: in the code's float order for every R, in exact arithmetic, and the
+    # 2^-53-relative margins for every Rounding R
+    (PB, 'NSV.C18.dec_drops_exactly'), (PB, 'NSV.C18.keepR_exact'), (PB, 'NSV.C18.dec_drops_exact_id'),
+    (PB, 'NSV.C18.keepR_float_kept'), (PB, 'NSV.C18.keepR_float_dropped'),
 ]
 
 
